@@ -225,10 +225,10 @@ Section Compile.
   (* no loop bound of the model is ever exhausted, and no "impossible" lookup fails: on every input
      the compiler returns a graph or one of the errors a user can cause *)
   Theorem compile_total ords :
-    (exists g, compile es cx svc ords = Ok g) \/
-    (exists e, compile es cx svc ords = Err e /\ e <> EOutOfFuel /\ e <> EInternal).
+    (exists g, compile_ord es cx svc ords = Ok g) \/
+    (exists e, compile_ord es cx svc ords = Err e /\ e <> EOutOfFuel /\ e <> EInternal).
   Proof.
-    unfold compile. destruct (assemble es cx svc) as [[[st start] router]|e] eqn:Ea.
+    unfold compile_ord. destruct (assemble es cx svc) as [[[st start] router]|e] eqn:Ea.
     - destruct (passes_spec _ _ _ ords Ea) as [Hd|(Hd & ns1 & ns2 & r & Hf & Hr & _)]; cbn zeta in *.
       + rewrite Hd. right. eexists; split; [reflexivity|]. split; discriminate.
       + rewrite Hd, Hf, Hr. destruct (negb (http_like (s_proto st)) && s_adv st).
@@ -237,10 +237,10 @@ Section Compile.
     - right. exists e. split; [reflexivity|]. apply assemble_user_err in Ea. destruct e; cbn in Ea; try contradiction; split; discriminate.
   Qed.
 
-  Theorem compile_terminates ords : compile es cx svc ords <> Err EOutOfFuel.
+  Theorem compile_terminates ords : compile_ord es cx svc ords <> Err EOutOfFuel.
   Proof. destruct (compile_total ords) as [(g & ->)|(e & -> & H & _)]; congruence. Qed.
 
-  Theorem compile_no_internal ords : compile es cx svc ords <> Err EInternal.
+  Theorem compile_no_internal ords : compile_ord es cx svc ords <> Err EInternal.
   Proof. destruct (compile_total ords) as [(g & ->)|(e & -> & _ & H)]; congruence. Qed.
 
   (* ---- closure ---- *)
@@ -248,7 +248,7 @@ Section Compile.
   Definition splitters_nonempty : Prop := forall s l, get_splitter es s = Some l -> l <> [].
 
   Theorem compile_closed ords g :
-    compile es cx svc ords = Ok g ->
+    compile_ord es cx svc ords = Ok g ->
     lookup (g_start g) (g_nodes g) <> None /\
     closed (g_nodes g) /\
     well_kinded (g_nodes g) /\
@@ -256,7 +256,7 @@ Section Compile.
     (exists r, Ranked r (g_nodes g)) /\
     (splitters_nonempty -> nonempty_nodes (g_nodes g)).
   Proof.
-    unfold compile. destruct (assemble es cx svc) as [[[st start] router]|e] eqn:Ea; [|discriminate].
+    unfold compile_ord. destruct (assemble es cx svc) as [[[st start] router]|e] eqn:Ea; [|discriminate].
     destruct (passes_spec _ _ _ ords Ea) as [Hd|(Hd & ns1 & ns2 & r & Hf & Hr & H1 & H2 & H3 & H4 & H5 & H6 & _)]; cbn zeta in *.
     - rewrite Hd. discriminate.
     - rewrite Hd, Hf, Hr. destruct (negb (http_like (s_proto st)) && s_adv st); [discriminate|].
@@ -280,9 +280,9 @@ Section Compile.
     assemble es cx svc = Ok (st, start, router) ->
     let ns := to_nodes svc st router in
     reachN ns start a -> edge ns a b -> reachN ns b a ->
-    compile es cx svc ords = Err ECircularReference.
+    compile_ord es cx svc ords = Err ECircularReference.
   Proof.
-    intros Ea ns H1 H2 H3. unfold compile. rewrite Ea.
+    intros Ea ns H1 H2 H3. unfold compile_ord. rewrite Ea.
     destruct (passes_spec _ _ _ ords Ea) as [Hd|(Hd & _)]; cbn zeta in *.
     - rewrite Hd. reflexivity.
     - exfalso. exact (detect_cycle _ _ _ _ _ _ H1 H2 H3 Hd).
@@ -293,7 +293,7 @@ Section Compile.
   Theorem compile_redirect_cycle ords :
     (disable_adv cx = true \/ (get_router es svc = None /\ get_splitter es svc = None)) ->
     cyclic es cx (new_target cx svc "") ->
-    compile es cx svc ords = Err ECircularRedirect \/ compile es cx svc ords = Err EProtocolMismatch.
+    compile_ord es cx svc ords = Err ECircularRedirect \/ compile_ord es cx svc ords = Err EProtocolMismatch.
   Proof.
     intros Hno Hc.
     assert (Hr : (if disable_adv cx then None else get_router es svc) = None)
@@ -301,17 +301,17 @@ Section Compile.
     assert (Hs : (if disable_adv cx then None else get_splitter es svc) = None)
       by (destruct Hno as [-> | [_ ->]]; [reflexivity | destruct (disable_adv cx); reflexivity]).
     assert (HF : Final_memo es cx st0) by (intros t Ht; discriminate).
-    unfold compile, assemble. rewrite Hr. unfold get_split_or_resolve.
+    unfold compile_ord, assemble. rewrite Hr. unfold get_split_or_resolve.
     cbn [t_svc new_target].
     assert (Hg : get_splitter_node es cx (splitter_fuel es) st0 svc = Ok (st0, None)).
     { unfold splitter_fuel. cbn [get_splitter_node]. unfold mem_splitter; cbn [st0 s_splitters assoc]. rewrite Hs. reflexivity. }
     rewrite Hg. unfold get_resolver_node.
     destruct (resolve_loop_cycle es cx st0 (new_target cx svc "") HF Hc) as [-> | ->]; auto.
   Qed.
-  (* whether compile fails, and with which error, does not depend on the flatten order *)
-  Theorem compile_error_order o1 o2 e : compile es cx svc o1 = Err e -> compile es cx svc o2 = Err e.
+  (* whether compile_ord fails, and with which error, does not depend on the flatten order *)
+  Theorem compile_error_order o1 o2 e : compile_ord es cx svc o1 = Err e -> compile_ord es cx svc o2 = Err e.
   Proof.
-    unfold compile. destruct (assemble es cx svc) as [[[st start] router]|e0] eqn:Ea; [|auto].
+    unfold compile_ord. destruct (assemble es cx svc) as [[[st start] router]|e0] eqn:Ea; [|auto].
     destruct (passes_spec _ _ _ o1 Ea) as [Hd|(Hd & a1 & a2 & r1 & Hf1 & Hr1 & _)];
       destruct (passes_spec _ _ _ o2 Ea) as [Hd'|(Hd' & b1 & b2 & r2 & Hf2 & Hr2 & _)]; cbn zeta in *;
       rewrite ?Hd; try (rewrite Hd in Hd'; discriminate); auto.
@@ -392,9 +392,9 @@ Qed.
 Theorem compile_order_no_chain es cx svc ords ords' :
   (forall st start router, assemble es cx svc = Ok (st, start, router) ->
                            forall a b, ~ schild (to_nodes svc st router) a b) ->
-  compile es cx svc ords = compile es cx svc ords'.
+  compile_ord es cx svc ords = compile_ord es cx svc ords'.
 Proof.
-  intros H. unfold compile. destruct (assemble es cx svc) as [[[st start] router]|e] eqn:Ea; [|reflexivity].
+  intros H. unfold compile_ord. destruct (assemble es cx svc) as [[[st start] router]|e] eqn:Ea; [|reflexivity].
   specialize (H _ _ _ eq_refl). destruct (detect _ _ [] start); try reflexivity.
   unfold flatten_fuel. cbn [Nat.add]. rewrite !flatten_no_chain; auto.
 Qed.
